@@ -37,6 +37,12 @@ Theorem C16_int_of_str_exact : forall (s : sign) (ds : list Z), ds <> [] -> digi
 Proof. exact int_of_str_exact. Qed.
 Print Assumptions C16_int_of_str_exact.
 
+(* '_' separators after any digit are ignored (num-bigint): int("1_000") = 1000 *)
+Theorem C16_int_of_str_underscores : forall (s : sign) (ds : list Z) (us : list nat), ds <> [] -> digits_ok 10 ds ->
+  int_of_str (sign_text s ++ underscored ds us) = Ok (sign_z s (pos_value 10 ds)).
+Proof. exact int_of_str_underscores. Qed.
+Print Assumptions C16_int_of_str_underscores.
+
 (* int_radix(str_radix(n, b), b) == n for n >= 0 and every base 2..36 *)
 Theorem C16_radix_roundtrip : forall n b : Z, 0 <= n -> 2 <= b <= 36 ->
   exists s, str_radix n b = Ok s /\ int_radix s b = Ok n.
@@ -78,6 +84,12 @@ Theorem C16_decimal_exact : forall d : dec, wf_dec d ->
   (~ exp_fits d -> parse_decimal_exactly (render_dec d) = Err EValue).
 Proof. exact decimal_exact. Qed.
 Print Assumptions C16_decimal_exact.
+
+(* the value spelled is mantissa * 10^scale with the standard rational power *)
+Theorem C16_dec_value_scientific : forall d : dec,
+  (dec_value d == inject_Z (dec_mantissa d) * Qpower (10 # 1) (dec_scale d))%Q.
+Proof. exact dec_value_scientific. Qed.
+Print Assumptions C16_dec_value_scientific.
 
 (* rational(s) for one decimal with white space around it *)
 Theorem C16_rational_exact_decimal : forall (d : dec) (ws1 ws2 : str), wf_dec d ->
